@@ -273,6 +273,13 @@ def _r_blk(ck, world, table, rules, infos) -> None:
                 body = a_t[0][2]
                 ok = body == ('binop', '@', ('var', p2), ('var', p1))
                 why = f'block product is {show(body)} with ({p1}, {p2}) bound to (right block, left block)'
+            elif f_t == ('attr', ('attr', ('var', 'jax'), 'tree'), 'map') and len(a_t) == 3 and {a_t[1], a_t[2]} == {('attr', L, 'blocks'), ('attr', R, 'blocks')} and a_t[0][0] == 'lambda' and len(a_t[0][1]) == 2:
+                # the same mapping written with jax.tree.map over the two containers
+                p1, p2 = a_t[0][1]
+                body = a_t[0][2]
+                first_is_left = a_t[1] == ('attr', L, 'blocks')
+                ok = body == (('binop', '@', ('var', p1), ('var', p2)) if first_is_left else ('binop', '@', ('var', p2), ('var', p1)))
+                why = f'block product is {show(body)} with ({p1}, {p2}) bound to ({"left" if first_is_left else "right"} block, {"right" if first_is_left else "left"} block)'
             else:
                 why = f'unrecognised block mapping {show(inner)}'
         ck.expect('R-BLK', ok, fn, 'each reduced block is (left block) @ (right block), left and right containers aligned leaf by leaf',
@@ -463,8 +470,13 @@ def _r_drv(ck, world, table, strict_order: bool = False) -> None:
             why = f'pair read at [{show(r0)}], [{show(r1)}]; splice assigns [{show(sl)}]'
         else:
             why = f'the elements read from the list are {sorted(show(a) for a in loads)}: not an adjacent pair'
-    ck.expect('R-DRV', ok, fn, 'the rewrite replaces operands[i:i+2], exactly the pair read at i and i+1',
-              f'the splice does not replace exactly the pair that was matched: {why}', instance='splice')
+    if len(splices) == 1 and len(loads) == 2:
+        ck.expect('R-DRV', ok, fn, 'the rewrite replaces operands[i:i+2], exactly the pair read at i and i+1',
+                  f'the splice does not replace exactly the pair that was matched: {why}', instance='splice')
+    else:
+        # the scan is organised differently (the splice lives in a helper, the list is rebuilt...): not a form this clause decides
+        ck.incomplete('R-DRV', fn, f'the scan does not read a pair and splice it in place in the loop itself ({len(splices)} splice(s), {len(loads)} element read(s)): '
+                      'whether the rewrite replaces exactly the matched pair is not decided', instance='splice')
     # empty -> identity on captured structure
     rets = [p for p in function_paths(fn) if p.exit == 'return']
     found = False
